@@ -4,6 +4,7 @@ import (
 	"bytes"
 	"fmt"
 	"runtime"
+	"sync"
 	"time"
 
 	"github.com/hydraide/hydraide/app/core/compressor"
@@ -495,6 +496,14 @@ func runC24x(s C24Scenario, allocOnly bool) pbt.Outcome {
 	}
 	cCopy := append([]byte{}, c...)
 	zstdHangOpen := s.Alg == 4 && pbt.Open("C24", "zstd-stream-decoder-deadlock")
+	if !allocOnly {
+		// A compressed form is a value: using the compressor again — the same instance, another
+		// instance, another goroutine — must not change a form handed out earlier (the chronicler
+		// keeps compressing blocks while earlier blocks are still being written).
+		if f := c24ResultsAreValues(name, s.Alg, comp, x, c, cCopy); f != nil {
+			return *f
+		}
+	}
 	y, err, hung, pan := decompressWatched(comp, c)
 	if pan != nil {
 		return pbt.Failf("panic", "%s: Decompress(Compress(x)) panicked for %d-byte x: %v", name, len(x), pan)
@@ -602,6 +611,80 @@ const c24HangTimeout = 30 * time.Second
 // decompressWatched runs Decompress in its own goroutine so that a call that
 // never returns is reported instead of stalling the whole check. (The blocked
 // goroutine is leaked; the run ends with the failure anyway.)
+// c24ResultsAreValues compresses other payloads (sequentially with the same and a fresh instance, then
+// from three goroutines with instances of their own) while the form c of x is held, and checks that c
+// stays what it was and that every form still decompresses to its own payload.
+func c24ResultsAreValues(name string, alg int, comp compressor.Compressor, x, c, cCopy []byte) *pbt.Outcome {
+	variant := func(k int) []byte {
+		v := make([]byte, 0, len(x)+2)
+		for i := len(x) - 1; i >= 0; i-- {
+			v = append(v, x[i]^byte(k))
+		}
+		return append(v, 0xA5, byte(k))
+	}
+	fail := func(shape, format string, a ...any) *pbt.Outcome {
+		o := pbt.Failf(shape, format, a...)
+		return &o
+	}
+	type held struct{ x, c, cc []byte }
+	hs := []held{{x, c, cCopy}}
+	for k, cm := range []compressor.Compressor{comp, compressor.New(compressor.Type(alg))} {
+		v := variant(k + 1)
+		cv, err := cm.Compress(v)
+		if err != nil {
+			return fail("compress-error", "%s: Compress(%d bytes) failed: %v", name, len(v), err)
+		}
+		hs = append(hs, held{v, cv, append([]byte{}, cv...)})
+		for i, h := range hs {
+			if !bytes.Equal(h.c, h.cc) {
+				return fail("result-aliased", "%s: the compressed form returned by Compress call #%d (%d-byte payload) changed when Compress was called again (call #%d, %d-byte payload): was %s, is %s",
+					name, i+1, len(h.x), len(hs), len(v), hx(h.cc), hx(h.c))
+			}
+		}
+	}
+	if len(x) > 1<<16 {
+		return nil
+	}
+	var wg sync.WaitGroup
+	errs := make([]string, 3)
+	for g := 0; g < 3; g++ {
+		wg.Add(1)
+		go func(g int) {
+			defer wg.Done()
+			defer func() {
+				if r := recover(); r != nil {
+					errs[g] = fmt.Sprintf("panic: %v", r)
+				}
+			}()
+			cm := compressor.New(compressor.Type(alg))
+			for r := 0; r < 4; r++ {
+				v := variant(16 + 4*g + r)
+				cv, err := cm.Compress(v)
+				if err != nil {
+					errs[g] = fmt.Sprintf("Compress failed: %v", err)
+					return
+				}
+				runtime.Gosched()
+				z, err := cm.Decompress(cv)
+				if err != nil || !bytes.Equal(z, v) {
+					errs[g] = fmt.Sprintf("Decompress(Compress(v)) of a %d-byte v while two other goroutines do the same with other payloads: err=%v, got %d bytes %s, want %s", len(v), err, len(z), hx(z), hx(v))
+					return
+				}
+			}
+		}(g)
+	}
+	wg.Wait()
+	for _, e := range errs {
+		if e != "" {
+			return fail("concurrent-roundtrip", "%s: %s", name, e)
+		}
+	}
+	if !bytes.Equal(c, cCopy) {
+		return fail("result-aliased", "%s: the compressed form of the %d-byte payload changed while other goroutines compressed other payloads: was %s, is %s", name, len(x), hx(cCopy), hx(c))
+	}
+	return nil
+}
+
 func decompressWatched(comp compressor.Compressor, d []byte) (z []byte, err error, hung bool, pan any) {
 	type res struct {
 		z   []byte
